@@ -31,7 +31,7 @@ RULE = ("case = component-graph font(s) with anchors (3-12 glyphs, depth<=4) x o
         "interpolatable Decompose / DecomposeTransformed / Flatten / PropagateAnchors / "
         "SkipExportGlyphs on 2-3 compatible fonts) x selection (all / include list / exclude list / "
         "predicate) x target (font in place, separate glyph-set copy, foreign dict) x reuse history "
-        "(object applied to A, B, then A' and compared with a fresh object on A''); distinct = sha1 "
+        "(object applied to A, B - a font with other vertical metrics, compared with a fresh object on B - then A' and compared with a fresh object on A''); distinct = sha1 "
         "of the case; non-trivial = the filter ran and reported or changed at least one glyph")
 ASSUMPTIONS = [
     "a glyph's state = points (types, smooth), components, anchors, width, height, unicodes, lib",
